@@ -83,21 +83,21 @@ fn type_idx(t: Option<SignType>) -> usize {
 
 //@include shared_spec.rs
 
-const PEND_MAX: usize = 64;
+const PEND_MAX: usize = 400; // more than the largest real page image (336 bytes)
 const DATA_MAX: usize = 255;
 
 /// An arbitrary sign: any address, flip style, state, recorded type, counter and dimensions; a pending buffer of
 /// any length 0..=64 with the contents of `pend`; 0 or 1 stored page.
-fn any_sign(pend: &[u8; PEND_MAX], with_inv: bool) -> VirtualSign<'static> {
+fn any_sign(pend: &[u8], with_inv: bool) -> VirtualSign<'static> {
     any_sign_opt(pend, with_inv, 2, true)
 }
-fn any_sign_opt(pend: &[u8; PEND_MAX], with_inv: bool, pend_mode: u8, allow_page: bool) -> VirtualSign<'static> {
+fn any_sign_opt(pend: &[u8], with_inv: bool, pend_mode: u8, allow_page: bool) -> VirtualSign<'static> {
     let si: usize = kani::any();
     kani::assume(si < 13);
     let ti: usize = kani::any();
     kani::assume(ti < 12);
     let n: usize = match pend_mode { 0 => 0, 1 => 16, _ => kani::any() };
-    kani::assume(n <= PEND_MAX);
+    kani::assume(n <= pend.len());
     let width: u32 = kani::any();
     let height: u32 = kani::any();
     let have_page: bool = allow_page && kani::any();
@@ -181,8 +181,12 @@ fn any_message<'a>(arr: &'a [u8; DATA_MAX]) -> Message<'a> {
 #[kani::unwind(14)]
 fn c12_step_never_panics() {
     let pend: [u8; PEND_MAX] = kani::any();
+    c12_step(&pend);
+}
+
+fn c12_step(pend: &[u8]) {
     let arr: [u8; DATA_MAX] = kani::any();
-    let mut sign = any_sign(&pend, false);
+    let mut sign = any_sign(pend, false);
     let before_state = sign.state;
     let before_pages = sign.pages.len();
     let m = any_message(&arr);
@@ -294,8 +298,12 @@ fn cfg_of(arr: &[u8; DATA_MAX]) -> (u8, u32, u32, usize) {
 #[kani::unwind(14)]
 fn c13_step_refines_spec() {
     let pend: [u8; PEND_MAX] = kani::any();
+    c13_step(&pend);
+}
+
+fn c13_step(pend: &[u8]) {
     let arr: [u8; DATA_MAX] = kani::any();
-    let mut sign = any_sign(&pend, true);
+    let mut sign = any_sign(pend, true);
     let before = snap(&sign);
     let old_page_ptr = if sign.pages.is_empty() { core::ptr::null() } else { sign.pages[0].as_bytes().as_ptr() };
     let old_pend_ptr = sign.pending_data.as_ptr();
